@@ -85,6 +85,29 @@ theorem interp_sound_addr (need : String → String → Nat → List Nat) (G : G
     (hlt : c < G.size) (hc : (G.node c).op = .libc fn nm) (R : Nat) (hR : R ∈ need fn nm md) : subMask R F = false :=
   Sound.interp_sound_addr need G C h ids taken hcov F0 c F md fn nm hobs hlt hc R hR
 
+/-- ★ The property end to end, same thread: once a requirement group `R` of the OS-level call `c` is disabled in thread
+    `tid`, then after ANY sequence of operations of any threads an interpreter run of that thread never reaches `c`
+    (`flags_monotone` composed with `checker_sound_entry`). -/
+theorem stays_enforced (need : String → String → Nat → List Nat) (G : Graph) (C : Cert) (h : certOK need G C = true)
+    (s : Sys) (tid fl : Nat) (hs : s[tid]? = some fl) (ops : List SysOp)
+    (c F md : Nat) (fn nm : String) (hlt : c < G.size) (hc : (G.node c).op = .libc fn nm)
+    (R : Nat) (hR : R ∈ need fn nm md) (hdis : subMask R fl = true) :
+    ∃ fl', (s.run ops)[tid]? = some fl' ∧ ¬ Ob G true 0 fl' 0 c F md :=
+  Sound.stays_enforced need G C h s tid fl hs ops c F md fn nm hlt hc R hR hdis
+
+/-- ★ … and for a thread started later (`thread_keeps_parent_flags` composed with `checker_sound_entry`): an interpreter
+    run of the NEW thread never reaches `c`, whatever any thread did in between. -/
+theorem thread_enforced (need : String → String → Nat → List Nat) (G : Graph) (C : Cert) (h : certOK need G C = true)
+    (s : Sys) (tid fl : Nat) (hs : s[tid]? = some fl) (ops : List SysOp)
+    (c F md : Nat) (fn nm : String) (hlt : c < G.size) (hc : (G.node c).op = .libc fn nm)
+    (R : Nat) (hR : R ∈ need fn nm md) (hdis : subMask R fl = true) :
+    ∃ fl', ((s.step (.spawn tid)).run ops)[s.length]? = some fl' ∧ ¬ Ob G true 0 fl' 0 c F md :=
+  Sound.thread_enforced need G C h s tid fl hs ops c F md fn nm hlt hc R hR hdis
+
+/-- ★ an interpreter run never re-enables a capability (semantics of `Ex` alone, no certificate needed) -/
+theorem run_never_reenables (G : Graph) (F F' : Nat) (h : Ex G true 0 F 0 0 F' 0) : subMask F F' = true :=
+  Sound.ex_mono h
+
 /-- non-vacuity: see the `example`s at the end of Sandbox/Sound.lean (a reachable guarded call; the shapes of the `os/rm`
     and `os/open :a` escapes are rejected) -/
 example : certOK need Sound.exG Sound.exC = true := by decide
@@ -153,6 +176,21 @@ theorem gen_threadStart : threadStartOK threadStart = true := by decide +kernel
 /-- non-vacuity: a hand-over that does not pass the flag word is rejected -/
 example : threadStartOK [("janet_go_thread_subr", "janet_init; flags := msg.argi"), ("cfun_ev_thread", "unverified hand-over via janet_ev_threaded_call"),
     ("janet_ev_threaded_await", "msg.argi := parameter argi; janet_ev_threaded_call(fp, msg)")] = false := by decide
+
+open JanetModel.Gen.Sandbox in
+/-- ★ the whole property for the program as it is now (entry points = address-taken functions of the slice): a capability
+    group disabled in a thread stays enforced in that thread and in every thread it starts later -/
+theorem sandbox_enforced_threads (s : Sys) (tid fl : Nat) (hs : s[tid]? = some fl) (ops : List SysOp)
+    (c F md : Nat) (fn nm : String) (hlt : c < graph.size) (hc : (graph.node c).op = .libc fn nm)
+    (R : Nat) (hR : R ∈ need fn nm md) (hdis : subMask R fl = true) :
+    (∃ fl', (s.run ops)[tid]? = some fl' ∧
+      ¬ Ob (graph.withEntries (addrEntries sliceIds addressTaken)) true 0 fl' 0 c F md) ∧
+    (∃ fl', ((s.step (.spawn tid)).run ops)[s.length]? = some fl' ∧
+      ¬ Ob (graph.withEntries (addrEntries sliceIds addressTaken)) true 0 fl' 0 c F md) := by
+  obtain ⟨f1, h1, m1⟩ := flags_monotone ops s tid fl hs
+  obtain ⟨f2, h2, m2⟩ := thread_keeps_parent_flags s tid fl hs ops
+  exact ⟨⟨f1, h1, sandbox_enforced_addr f1 c F md fn nm hlt hc R hR (Sound.subMask_trans hdis m1)⟩,
+         ⟨f2, h2, sandbox_enforced_addr f2 c F md fn nm hlt hc R hR (Sound.subMask_trans hdis m2)⟩⟩
 
 open JanetModel.Gen.Sandbox in
 /-- the instance of `checker_sound_entry` for the program as it is now -/
